@@ -107,6 +107,19 @@ Fixpoint direct_parents_first (M : cmodel) (seen : list string) (order : list cl
   | c :: r => match direct_parent M c with Some p => str_in (c_name p) seen | None => true end
               && direct_parents_first M (c_name c :: seen) r
   end.
+(* the inheritance graph ORMatic sorts (since 280300b): an edge from the direct base, when mapped, and an edge from the
+   first mapped class of the MRO; [impl_order]: a listing of the classes that is a topological order of that graph,
+   which is what rustworkx.topological_sort returns for whatever order the classes were handed over in *)
+Fixpoint graph_parents_first (M : cmodel) (seen : list string) (order : list cls) : bool :=
+  match order with
+  | [] => true
+  | c :: r => match direct_parent M c with Some p => str_in (c_name p) seen | None => true end
+              && match parent_of M c with Some p => str_in (c_name p) seen | None => true end
+              && graph_parents_first M (c_name c :: seen) r
+  end.
+Definition impl_order (M : cmodel) (order : list cls) : Prop :=
+  (forall c, In c order <-> In c M) /\ NoDup (map c_name order) /\ graph_parents_first M [] order = true.
+
 Definition topo (M : cmodel) (order : list cls) : Prop :=
   (forall c, In c order <-> In c M) /\ NoDup (map c_name order) /\ parents_first M [] order = true.
 
